@@ -33,7 +33,7 @@ build_harness() { # profile...
   return 0
 }
 
-needs_dbgchk() { case "$1" in C01|C04|C05|C06|C07|C08|C09|C10|C12|C13|C15|C16|C19|setup) return 0;; *) return 1;; esac; }
+needs_dbgchk() { case "$1" in C01|C02|C03|C04|C05|C06|C07|C08|C09|C10|C11|C12|C13|C15|C16|C19|setup) return 0;; *) return 1;; esac; }
 
 if [ $# -lt 1 ]; then echo "usage: $0 <ID> quick|thorough | <ID> --replay <file> | setup" >&2; exit 2; fi
 ID="$1"; shift
